@@ -149,7 +149,34 @@ pub fn bfs<S: Subject>(subject: &S, cfg: &BfsConfig) -> BfsResult {
                         for fi in base..(base + 8).min(frontier_ref.len()) {
                             let (hist, aux) = &frontier_ref[fi];
                             for op in 0..nops as u16 {
-                                let so = subject.step(&mut ctx, hist, aux, op, &seen_fn);
+                                let so = match std::panic::catch_unwind(std::panic::AssertUnwindSafe(|| {
+                                    subject.step(&mut ctx, hist, aux, op, &seen_fn)
+                                })) {
+                                    Ok(so) => so,
+                                    Err(p) => {
+                                        // a panic outside the guarded calls (observation of a level whose
+                                        // counters wrapped, ...): reported, the branch is not extended
+                                        let msg = if let Some(s) = p.downcast_ref::<String>() {
+                                            s.clone()
+                                        } else if let Some(s) = p.downcast_ref::<&str>() {
+                                            s.to_string()
+                                        } else {
+                                            "panic".to_string()
+                                        };
+                                        ctx = subject.make_ctx();
+                                        StepOut {
+                                            enabled: true,
+                                            key: crate::common::hash128(&("panic", hist, op)),
+                                            aux: aux.clone(),
+                                            extend: false,
+                                            violations: vec![format!("panic while executing / observing this step: {msg}")],
+                                            known: vec![],
+                                            outcome: 0,
+                                            nontrivial: false,
+                                            extra_exec: 0,
+                                        }
+                                    }
+                                };
                                 if !so.enabled {
                                     continue;
                                 }
